@@ -703,7 +703,7 @@ class LexerTokenStream(TokenStream):
 
             if tok.type == "NEWLINE":
                 # detect/remove line continuations
-                if len(tokbuf) > 2 and tokbuf[-2].type == "\\":
+                if len(tokbuf) >= 2 and tokbuf[-2].type == "\\":
                     tokbuf.pop()
                     tokbuf.pop()
                 else:
